@@ -7,7 +7,7 @@ Inductive out :=
 | OOk (shape : list Z) (vals : list (option Q)) (mo : mask_out) (unit_meta_ok : bool)
 | OErr (e : err).
 
-Record case := mk { shape : list Z; bins : bin_input; op : opk; ignores : bool; hm : handle; mk_ : mask_in;
+Record case := mk { shape : list Z; same_unit : bool; bins : bin_input; op : opk; ignores : bool; hm : handle; mk_ : mask_in;
                     data : list (option Q); marr : list bool; impl : out }.
 
 Definition qnear (a b : Q) : bool :=
@@ -39,7 +39,7 @@ Definition mo_eqb (a b : mask_out) : bool :=
 Definition agree (c : case) : bool :=
   let x := fun idx => nth (Z.to_nat (ravel (shape c) idx)) (data c) None in
   let mf := fun idx => nth (Z.to_nat (ravel (shape c) idx)) (marr c) false in
-  match bind (sanitize_bins (bins c)) (rebin_plan (shape c)), impl c with
+  match bind (sanitize_bins (bins c)) (rebin_plan_u (same_unit c) (shape c)), impl c with
   | Ok PSelf, OSelf => true
   | Ok (PBins ns bs), OOk sh vals mo um =>
       list_eqb Z.eqb sh ns
